@@ -1,14 +1,14 @@
 CONSTANTS
-  NumBlocks = {0, 5, 50, 500}
-  CallBlocks = {500}
-  LogBlocks = {50}
+  NumBlocks = {5, 50, 500}
+  CallBlocks = {}
+  LogBlocks = {}
   Extra = TRUE
   MaxLen = 4
   Latests = {0, 627}
   Rule = 127
   Seed = TRUE
   Guard = TRUE
-  Tendermint = FALSE
+  Tendermint = TRUE
   ZeroOk = TRUE
   EarliestLow = TRUE
 INIT Init
